@@ -120,7 +120,7 @@ func init() {
 		mutant{Name: "setenv-override-dropped", Prop: "C13", File: "interp/use.go", Old: "\t\t\tp[\"Setenv\"] = reflect.ValueOf(func(key, value string) error { interp.env[key] = value; return nil })\n", New: "", Rule: "R13.4", Key: "os.Setenv"},
 		mutant{Name: "println-to-host-stdout", Prop: "C13", File: "interp/use.go", Old: "p[\"Println\"] = reflect.ValueOf(func(a ...interface{}) (n int, err error) { return fmt.Fprintln(stdout, a...) })", New: "p[\"Println\"] = reflect.ValueOf(func(a ...interface{}) (n int, err error) { return fmt.Fprintln(os.Stdout, a...) })", Rule: "R13.5", Key: "fmt.Println/stream"},
 		mutant{Name: "fixstdlib-fatal-rebinds-fatal", Prop: "C13", File: "interp/use.go", Old: "p[\"Fatalf\"] = reflect.ValueOf(l.Panicf)", New: "p[\"Fatalf\"] = reflect.ValueOf(l.Fatalf)", Rule: "R13.2", Key: "fixStdlib/log.Fatalf"},
-		mutant{Name: "logger-embedded", Prop: "C13", File: "stdlib/restricted.go", Old: "type logLogger struct {\n\tl *log.Logger\n}", New: "type logLogger struct {\n\t*log.Logger\n\tl *log.Logger\n}", Rule: "R13.2", Key: "logLogger/opaque"},
+		mutant{Name: "logger-embedded", Prop: "C13", File: "stdlib/restricted.go", Old: "type logLogger struct {\n\tl *log.Logger\n}", New: "type logLogger struct {\n\t*log.Logger\n\tl *log.Logger\n}", More: [][2]string{{"return &logLogger{log.New(out, prefix, flag)}", "x := log.New(out, prefix, flag)\n\treturn &logLogger{x, x}"}}, Rule: "R13.2", Key: "logLogger/opaque"},
 		mutant{Name: "env-seeded-from-host", Prop: "C13", File: "interp/interp.go", Old: "\t\t\t\ti.opt.env[a[0]] = \"\"\n", New: "\t\t\t\ti.opt.env[a[0]] = os.Getenv(a[0])\n", Rule: "R13.4", Key: "New/env-init"},
 		mutant{Name: "cmd-unsafe-always-used", Prop: "C13", File: "cmd/yaegi/run.go", Old: "\tif useUnsafe {\n", New: "\tif useUnsafe || useSyscall {\n", Rule: "R13.1", Key: "cmd/run/Use:unsafe"},
 		// ---- C14
